@@ -16,6 +16,7 @@ import (
 	"runtime/debug"
 	"sort"
 	"strconv"
+	"strings"
 	"sync"
 	"testing"
 	"time"
@@ -276,6 +277,10 @@ func Main[C any](t *testing.T, s Spec[C]) {
 			return o.Violation, o.Violation != ""
 		}
 		cur := rf.Case
+		if len(cur) == 0 || string(cur) == "null" {
+			fmt.Println("MINIMIZE: no case recorded (process died), nothing to minimise")
+			return
+		}
 		msg, ok := fails(cur)
 		if !ok {
 			fmt.Println("MINIMIZE: case does not fail deterministically, left as is")
@@ -292,7 +297,10 @@ func Main[C any](t *testing.T, s Spec[C]) {
 				for i := n - 1; i >= 0 && time.Now().Before(deadline); i-- {
 					cand := deleteAt(tree, pth, i)
 					raw, _ := json.Marshal(cand)
-					if m, bad := fails(raw); bad {
+					if cand == nil || string(raw) == "null" {
+						continue
+					}
+					if m, bad := fails(raw); bad && !strings.HasPrefix(m, "harness:") && !strings.HasPrefix(m, "panic:") == !strings.HasPrefix(msg, "panic:") {
 						tree, cur, msg = cand, raw, m
 						removed++
 						changed = true
